@@ -100,6 +100,13 @@ pub fn replay(j: &J) -> (bool, String) {
         Some("bytecode") => bccheck::replay_case(j),
         Some("compile") => compile::replay_case(j),
         Some("cli") => cli::replay_case(j),
+        Some("shard") => {
+            let sub = j.str("check").unwrap_or("");
+            let tier = Tier::parse(j.str("tier").unwrap_or("quick")).unwrap_or(Tier::Quick);
+            let exe = format!("{}/{}/mc", crate::target_dir(), j.str("exe_profile").unwrap_or("release"));
+            let how = crate::framework::run_shard(&exe, sub, tier, j.int("shard").unwrap_or(0) as u64, j.int("nshards").unwrap_or(1) as u64, 1800);
+            (how != "ok", format!("shard of {sub}: {how}"))
+        }
         Some("case") => {
             let sub = j.str("check").unwrap_or("");
             let tier = Tier::parse(j.str("tier").unwrap_or("quick")).unwrap_or(Tier::Quick);
